@@ -16,7 +16,7 @@ func runC19(r *Run) {
 	r.NotDec = []string{"the accounting identity as arithmetic over all field combinations", "go-ethereum / evmos StateDB semantics (inner-frame reverts, precompile journal)", "admission rules implemented in dependencies (mempool fee, min gas price)"}
 	r.Assume = []string{"sdk.ChainAnteDecorators runs decorators in argument order", "CacheContext writes are discarded unless its write function is called"}
 	r.rule("C19.R1", "EVM ante chain members and order", 6)
-	r.rule("C19.R2", "nonce: exact-match rejection, nonce+1 stored, every message", 4)
+	r.rule("C19.R2", "nonce: exact-match rejection, nonce+1 stored, every message; the execution does not take back what the ante handler advanced", 5)
 	r.rule("C19.R3", "revert containment in ApplyTransaction", 6)
 	r.rule("C19.R4", "refund of unused gas: always, at the effective price, fee collector -> sender", 6)
 	r.rule("C19.R5", "gas used = max(minimum, raw - refund), fixed afterwards", 5)
@@ -279,6 +279,71 @@ func runC19(r *Run) {
 		r.check(okSend, "C19.R4", "refund|collector-to-sender", v.pos(v.Decl), "the refund moves exactly that amount from the fee collector to the sender", "RefundGas does not send `remaining` from the fee collector to msg.From()")
 	}
 	// ---------------------------------------------------------------- R5 / R7
+	// R2 (execution side): the ante handler advances the nonce once per message of the tx before any message
+	// runs; whatever the execution writes to the sender's nonce afterwards must not fall behind that value
+	if v := w.View("x/evm/keeper", "Keeper.ApplyMessageWithConfig"); v == nil {
+		r.bad("C19.R2", "anchor|ApplyMessageWithConfig", "-", "anchor", "not found")
+	} else {
+		sets := v.CallsNamed("SetNonce")
+		if len(sets) == 0 {
+			r.ok("C19.R2", "nonce|execution-keeps-ante-value", v.pos(v.Decl), "the execution never writes the sender's nonce")
+		} else {
+			last := sets[len(sets)-1]
+			first := sets[0]
+			// the value the ante handler left, read before the first reset
+			var before types.Object
+			ast.Inspect(v.Decl.Body, func(n ast.Node) bool {
+				as, ok := n.(*ast.AssignStmt)
+				if ok && len(as.Lhs) == 1 && len(as.Rhs) == 1 && as.End() < first.Pos() && v.calleeName2(as.Rhs[0]) == "GetNonce" && within(as, v.innermostBlock(first)) {
+					before = v.objOf(as.Lhs[0])
+				}
+				return true
+			})
+			okKeep, why := false, "the nonce is not read (GetNonce) before the reset for evm.Create"
+			if before != nil && len(last.Args) == 2 {
+				why = "the last SetNonce stores `" + exprString(last.Args[1]) + "`, which is not the larger of the value read before the reset and msg.Nonce()+1"
+				arg := stripParens(last.Args[1])
+				if c, isC := arg.(*ast.CallExpr); isC && exprString(c.Fun) == "max" && len(c.Args) == 2 && (v.objOf(c.Args[0]) == before || v.objOf(c.Args[1]) == before) {
+					okKeep = true
+				}
+				if o := v.objOf(arg); o != nil {
+					// x := msg.Nonce()+1; if before > x { x = before }
+					plus, raised := false, false
+					ast.Inspect(v.Decl.Body, func(n ast.Node) bool {
+						as, ok := n.(*ast.AssignStmt)
+						if !ok || len(as.Lhs) != 1 || len(as.Rhs) != 1 || v.objOf(as.Lhs[0]) != o || as.Pos() > last.Pos() {
+							return true
+						}
+						if b, isB := stripParens(as.Rhs[0]).(*ast.BinaryExpr); isB && b.Op == token.ADD && exprString(b.Y) == "1" && strings.HasSuffix(exprString(b.X), ".Nonce()") {
+							plus = true
+							return true
+						}
+						if v.objOf(as.Rhs[0]) == before {
+							if v.factsOf(as).cmp(func(c cmp) bool { return c.Op == ">" && v.objOf(c.L) == before && v.objOf(c.R) == o }) {
+								// nothing else conditions the raise
+								only := true
+								for _, f := range v.FactsAt(as, false) {
+									if f.At != nil && f.At.Pos() > first.Pos() {
+										if c, isC := factCmp(f); !isC || !((v.objOf(c.L) == before && v.objOf(c.R) == o) || (v.objOf(c.L) == o && v.objOf(c.R) == before)) {
+											only = false
+										}
+									}
+								}
+								raised = only
+							}
+							return true
+						}
+						plus, raised = false, false // some other definition
+						return false
+					})
+					if plus && raised {
+						okKeep = true
+					}
+				}
+			}
+			r.check(okKeep, "C19.R2", "nonce|execution-keeps-ante-value", v.pos(last), "after a contract creation the sender's nonce is the larger of the value the ante handler left and msg.Nonce()+1", "ApplyMessageWithConfig: "+why+": in a transaction with a creation (nonce n) followed by another message (nonce n+1) the account ends at n+1 although both were included, and the second message can be included again")
+		}
+	}
 	if v := w.View("x/evm/keeper", "Keeper.ApplyMessageWithConfig"); v == nil {
 		r.bad("C19.R5", "anchor|ApplyMessageWithConfig", "-", "anchor", "not found")
 	} else {
